@@ -7,14 +7,14 @@ from gen import lib, c13
 
 
 def gen_cases(tier, rng):
-    n = 60 if tier == "quick" else 3000
+    n = 60 if tier == "quick" else 400
     cases = []
     for i in range(n):
         es = c13.rand_entries(rng, rng.randrange(1, 14), rng.choice([1, 2, 6, 40]), [0, 1, 10, 100, 700])
         if not es:
             continue
         bs = rng.choice([16, 64, 256, 4096])
-        cases.append("f%d %d:1 %d %d %s" % (i, bs, 40 if tier == "quick" else 120, rng.randrange(1, 1 << 30),
+        cases.append("f%d %d:1 %d %d %s" % (i, bs, 40 if tier == "quick" else 60, rng.randrange(1, 1 << 30),
                                              " ".join(c13.etok(e) for e in es)))
     return cases
 
